@@ -125,7 +125,11 @@ PROPS["C08"] = {
     "rule": "each case is a generated document with 6–13 bindings per object (constant, dynamic, grouped gadget members, attached, "
             "callbacks), a quarter with 1–4 planted errors, translated 24 times in-process (8 runs × generate/reject/omit; every "
             "HashMap instance has fresh RandomState keys, worker threads have independent key seeds, many other documents are "
-            "translated in between); .ui bytes, header bytes and the sorted list of (kind, range, message) must be identical",
+            "translated in between); .ui bytes, header bytes and the sorted list of (kind, range, message) must be identical; plus "
+            "'multiplicity' documents in which SEVERAL entries of one unordered container interact (palette default roles next to "
+            "colour groups, several handlers inside nested object / gadget / attached maps, many faulty bindings in one object, "
+            "several dynamic and constant members of gadget maps, several attached properties incl. out-of-range ones, many "
+            "anonymous objects / actions / menus, several structured values side by side)",
     "trusted_base": ["Rust's HashMap modelled as 'entries in an arbitrary permutation'",
                      "str's Ord is byte-lexicographic; for UTF-8 that is code-point-lexicographic (model uses code points)",
                      "tools/hash_iter_sites.py: heuristic scan pinning the 31 map-iteration sites (pins/C08_sites.json)"],
